@@ -32,6 +32,8 @@ def run(ctx):
     ctx.rule("R6", "a sent record's deadlines are not mixed up: at the construction of SentPktState::Flighting the value stored as "
                    "retran_time derives from the retransmission timeout and the value stored as expire_time from the expiry timeout "
                    "(same-typed positional arguments followed by def-use through SentPktState::new)")
+    ctx.rule("R7", "ACK-frame capacity accounting is paired: in gen_ack_frame_util every (gap, ack) range pushed inside the fold is charged "
+                   "to `capacity` on the same path (check, subtract, push) — a range that is only checked makes the running budget stale")
     ctx.rule("R2", "at-most-once acceptance: decode_pn returns Ok only when the slot is vacant or Empty; on_rcvd_pn is "
                    "fed only PlainPacket::pn() of an authenticated packet")
     # ---------------------------------------------------------------- R1
@@ -257,3 +259,38 @@ def run(ctx):
                        "argument stored as %s derives from %s — swapped deadlines make a packet that was declared lost leave the journal "
                        "after the (short) retransmission timeout: a late ACK for it then reports nothing to the frames' owners"
                        % (fname, sorted(names)))
+
+    # ---------------------------------------------------------------- R7
+    gc = [b for b in prog.bodies.values() if re.search(r"rcvd::RcvdJournal::gen_ack_frame_util::\{closure#\d+\}$", b.short)]
+    folds = [b for b in gc if call_blocks(b, r"Vec(<.*>|::<.*>)?::push$")]
+    ctx.floor("R7", "closures of gen_ack_frame_util that push a range", len(folds), 1)
+    for b in folds:
+        ctx.touch(b)
+        caps = b.get("captures", []) or []
+        cap_idx = [k for k, c in enumerate(caps) if c.get("var") == "capacity"]
+        pushes = call_blocks(b, r"Vec(<.*>|::<.*>)?::push$")
+        # writes through the captured `capacity` (a by-mut-ref capture: field .k of the closure environment, dereferenced)
+        wr = []
+        for (i, j, p, rv, line) in b.assigns():
+            if len(p) >= 3 and p[0] == 1 and "*" in p[1:]:
+                for e in p[1:]:
+                    if isinstance(e, str) and e.startswith("."):
+                        k = e[1:].split(":")[0]
+                        if k.isdigit() and int(k) in cap_idx and rv[0] in ("use", "bin"):
+                            wr.append(i)
+        # ... or through a local that copies the captured reference: `_t = (*_1).k; (*_t) = ..`
+        for (i, j, p, rv, line) in b.assigns():
+            if len(p) == 2 and p[1] == "*" and rv[0] in ("use", "bin"):
+                for (bb, jj, rv2) in b.defs_of(p[0]):
+                    if jj != "term" and rv2[0] == "use":
+                        q = op_place(rv2[1])
+                        if q is not None and q[0] == 1:
+                            for e in q[1:]:
+                                if isinstance(e, str) and e.startswith(".") and e[1:].split(":")[0].isdigit() and int(e[1:].split(":")[0]) in cap_idx:
+                                    wr.append(i)
+        for pb in pushes:
+            ok = any(b.dominates(w, pb) for w in wr)
+            ctx.ob("R7", "%s|the pushed range is charged to capacity" % b.short, ok, b.where(b.term(pb)["line"]),
+                   "writes of the captured `capacity`: %s; one of them dominates the push at bb%d: %s — every later range is otherwise checked "
+                   "against the budget before any range was added: the frame can exceed the space it was given and overrun the packet"
+                   % (sorted(set(wr)), pb, ok))
